@@ -1265,6 +1265,51 @@ theorem Sim.records_return {m : Mdl} {H : Nat} {t t' : Tree} {p : Path} {s depth
     · show upd t2.rets p _ p b = _
       simp only [upd, if_true, updN, hb, if_false]; rw [hf, e4]; rfl
 
+/-- a `simulate` call on node `p` adds exactly one visit to `p` and touches no count outside the subtree of `p` -/
+theorem Sim.nN_frame {m : Mdl} {H : Nat} {t t' : Tree} {p : Path} {s depth : Nat} {used : List Step} {r : Rat}
+    (h : Sim m H t p s depth used t' r) : t'.nN p = t.nN p + 1 ∧ ∀ q, ¬ p <+: q → t'.nN q = t.nN q := by
+  induction h with
+  | stop t p s depth st t1 _ _ _ hd =>
+    obtain ⟨e1, _⟩ := descend_spec hd
+    refine ⟨?_, fun q hq => ?_⟩
+    · show t1.nN p = _; rw [e1]; simp [Tree.incN, upd]
+    · have hne : q ≠ p := fun h => hq (h ▸ List.prefix_refl _)
+      show t1.nN q = _; rw [e1]; simp [Tree.incN, upd, hne]
+  | roll t p s depth st t1 n used fr _ _ _ hd _ =>
+    obtain ⟨e1, _⟩ := descend_spec hd
+    refine ⟨?_, fun q hq => ?_⟩
+    · show t1.nN p = _; rw [e1]; simp [Tree.incN, upd]
+    · have hne : q ≠ p := fun h => hq (h ▸ List.prefix_refl _)
+      show t1.nN q = _; rw [e1]; simp [Tree.incN, upd, hne]
+  | deeper t p s depth st t1 t2 used fr _ _ _ hd _ ih =>
+    obtain ⟨e1, _⟩ := descend_spec hd
+    have hnp : ¬ (p ++ [(st.a, m.key st)]) <+: p := by
+      intro hk
+      have := hk.length_le
+      simp at this
+    refine ⟨?_, fun q hq => ?_⟩
+    · show t2.nN p = _; rw [ih.2 p hnp, e1]; simp [Tree.incN, upd]
+    · have hne : q ≠ p := fun h => hq (h ▸ List.prefix_refl _)
+      have hq' : ¬ (p ++ [(st.a, m.key st)]) <+: q := fun h => hq (List.IsPrefix.trans (List.prefix_append _ _) h)
+      show t2.nN q = _; rw [ih.2 q hq', e1]; simp [Tree.incN, upd, hne]
+
+theorem Sims.root_count {m : Mdl} {H n : Nat} {t t' : Tree} {useds : List (List Step)} (h : Sims m H n t useds t') :
+    t'.nN [] = t.nN [] + n := by
+  induction h with
+  | zero => rfl
+  | succ n t t1 t2 s used r useds _ hS _ ih => rw [ih, hS.nN_frame.1]; omega
+
+/-- **root_count_fresh.**  After `sampleAction(s / belief, horizon ≥ 1)` the root's visit count — and by
+    `node_count_is_sum` the sum of its action counts — is exactly the number of iterations. -/
+theorem root_count_fresh {m : Mdl} {t t' : Tree} {parts : List Nat} {nA H iters : Nat} {log rest : List Step}
+    (hH : 0 < H) (hc : call m t (Op.fresh parts nA H iters) log = some (t', rest)) : t'.nN [] = iters := by
+  unfold call at hc
+  simp only [prepare] at hc
+  split at hc
+  · omega
+  · obtain ⟨useds, _, hS⟩ := runSims_sound m _ _ _ _ _ _ hc
+    rw [hS.root_count]; simp [Tree.fresh]
+
 /-! ### No simulation continues after a terminal state (MCTS; POMCP once its rollout is guarded) -/
 
 /-- only the last call of the list may have reported a terminal next state -/
